@@ -5,7 +5,7 @@ ID = "C36"
 HARNESS_PKG = "c36"
 HARNESS_RUNNER = "c36"
 COQ_TARGETS = ["theories/C36/Corr.vo"]
-COQ_CORR_MODULE = "Base.Str C36.Model C36.Spec C36.Corr"
+COQ_CORR_MODULE = "Base.Str Gen.C36Consts C36.Model C36.Spec C36.Corr"
 COQ_CASE_TYPE = "C36.Corr.case"
 COQ_CHECK = "C36.Corr.check_case"
 DESIGN_REF = "§5 C36"
@@ -18,7 +18,8 @@ LEVEL_TEXT = ("Proof, partial (P). Carried by theorems, for every byte string: s
               "leading white space of every Unicode White_Space rune — is read back by parseField / parseQuotedField as the same field, whatever follows). "
               "Per-type value formatting (interfaceValueAsSqlString classes): int_fmt_roundtrip (every integer) and value_fmt_roundtrip_partial (NULL, "
               "integers, quoted text, 0x binary, quoted temporal text free of quotes/backslashes read back as the same value); refuted for the BIT class "
-              "(raw value bytes: not a literal, or ASCII digits denoting another value). dec_fmt_roundtrip: sign, integer part and every fraction digit (the scale) of a decimal literal survive. Float text and the "
+              "(raw value bytes: not a literal, or ASCII digits denoting another value). dec_fmt_roundtrip: sign, integer part and every fraction digit (the scale) of a decimal literal survive. concat_chunks: batching rows into INSERT statements (BatchSqlExportWriter, batchSize regenerated from the source) loses and reorders nothing, "
+              "every batch size and row list; the real writer is driven with row counts around the batch boundary and its statements are parsed back. Float text and the "
               "date/time formatters themselves are not modelled (temporal values are covered as quoted text). Refuted at record level (witnesses replayed on the real code every run): a value containing CR LF comes back with LF only (readLine normalises "
               "CR LF inside quoted fields); a record that is a single NULL is written as an empty line and skipped by the reader. Resting on correspondence "
               "only: value formatting per column type, CREATE TABLE text, the JSON/Parquet writers, the SQL engine's parsing of the dump — checked by dumping "
@@ -28,7 +29,7 @@ LEVEL_NOTE = ("Trusted: Coq kernel, Go harness + Python glue. Modelled, not veri
               "library calls (sqlfmt row formatting, csv writer) in-process; mvdata/Parquet/JSON file writers are not exercised.")
 THEOREMS = ["sql_string_roundtrip", "hex_roundtrip", "csv_field_roundtrip (generic in the space predicate)", "csv_field_roundtrip_std",
             "int_fmt_roundtrip", "dec_fmt_roundtrip", "value_fmt_roundtrip_partial (NULL / integer / quoted text / 0x binary / quoted temporal; BIT excluded)",
-            "oracle_on_model_str", "model_agrees_on_model_str",
+            "oracle_on_model_str", "model_agrees_on_model_str", "concat_chunks", "chunks_bound", "oracle_on_model_batch",
             "csv_record_roundtrip_refuted_crlf", "csv_record_roundtrip_refuted_single_null", "value_fmt_roundtrip_refuted_bit"]
 REFUTED = ["csv_record_roundtrip (full): csv_record_roundtrip_refuted_crlf, csv_record_roundtrip_refuted_single_null",
            "value_fmt_roundtrip (full): value_fmt_roundtrip_refuted_bit (BIT values are emitted as raw bytes)"]
@@ -37,7 +38,7 @@ RULE = ("str: byte strings biased to quotes, backslashes, NUL, ctrl-Z, escape lo
         "float, char/varchar/text, binary/varbinary/blob, date/time, enum/set, json, bit, bool types with boundary and nasty values; distinct by content")
 ASSUMPTIONS = ["CSV delimiter is ',' and line terminator LF (the defaults of dolt's exporter on this platform)",
                "generated rows that the source database itself rejects are not part of the table"]
-REQUIRED_TAGS = ["str", "str-escaped", "str-nonutf8", "csv", "csv-null", "csv-empty", "csv-quoted", "csv-crlf", "csv-leading-space", "table", "table-sql-same", "table-binary", "table-json"]
+REQUIRED_TAGS = ["batch-over-boundary", "batch-within", "batch-three-statements", "str", "str-escaped", "str-nonutf8", "csv", "csv-null", "csv-empty", "csv-quoted", "csv-crlf", "csv-leading-space", "table", "table-sql-same", "table-binary", "table-json"]
 
 NASTY = [b"'", b"\\", b"\x00", b"\x1a", b'"', b"\n", b"\r", b"\t", b"\x08", b"\\q", b"\\0", b"\\Z", b"\\%", b"\\_", b"''", b"\\'", b"\xff", b"\xc3\x28",
          b"%", b"_", b"a", b"b", b" ", b"\xc3\xa9", b"\\\\", b"\\n", b";", b"--", b"/*", b"x'", b"0x"]
@@ -140,7 +141,21 @@ def gen_cases(rng, tier):
         cases.append(gen_csv(rng))
     for _ in range(n_tab):
         cases.append(gen_table(rng))
+    # rows through the batched SQL export writer, around the INSERT batch boundary (batchSize from the source)
+    bs = batch_size_from_source()
+    for n in ([0, 1, bs - 1, bs, bs + 1, 2 * bs + 1] if q else [0, 1, 2, bs - 1, bs, bs + 1, bs + 2, 2 * bs, 2 * bs + 1, 3 * bs + 1]):
+        cases.append({"kind": "batch", "n": n, "bs": bs})
     return cases
+
+
+def batch_size_from_source():
+    import os, re
+    from lib import vlib
+    try:
+        src = open(os.path.join(vlib.REPO, "go/libraries/doltcore/table/untyped/sqlexport/batch_sqlwriter.go")).read()
+        return int(re.search(r"const\s+batchSize\s*=\s*(\d+)", src).group(1))
+    except Exception:
+        return 10000
 
 
 def cq_field(f):
@@ -156,6 +171,9 @@ def coq_case(case, out):
     elif k == "csv":
         ci = "CCsv %s" % cq_list(cq_field(f) for f in case["fields"])
         ob = "OBad" if o is None else "OCsv %s %s %s" % (cq_bytes(o["text"]), cq_list(cq_list(cq_field(f) for f in r) for r in o["rows"]), cq_bool(o["rerr"]))
+    elif k == "batch":
+        ci = "CBatch %d" % case["n"]
+        ob = "OBad" if o is None else "OBatch %s %d %d %s" % (cq_list(str(x) for x in o["counts"]), o["nmissing"], o["extra"], cq_bool(bool(o["perr"])))
     else:
         ci = "CTable"
         ob = "OBad" if o is None else "OTable %s %s %s %s" % (cq_bool(o["setup_err"] == ""), cq_bool(o["sql_same"]), cq_bool(o["ddl_same"]), cq_bool(o["csv_same"]))
@@ -190,6 +208,13 @@ def classify(case, out):
             t.append("csv-leading-space")
         if o["rerr"]:
             t.append("csv-read-error")
+    elif k == "batch":
+        bs = case.get("bs", 10000)
+        t.append("batch-over-boundary" if case["n"] > bs else "batch-within")
+        if len(o["counts"]) >= 3:
+            t.append("batch-three-statements")
+        if o["nmissing"]:
+            t.append("batch-rows-missing")
     else:
         t.append("table-sql-same" if o["sql_same"] else "table-sql-differs")
         t.append("table-csv-same" if o["csv_same"] else "table-csv-differs")
